@@ -11,7 +11,7 @@ from functools import partial
 from numpy import ndarray
 from numpy.typing import NDArray
 from pandas import DataFrame, Series
-from typing import Iterable, Optional, Sequence, Tuple, List, Dict, Hashable, Union
+from typing import Any, Iterable, Optional, Sequence, Tuple, List, Dict, Hashable, Union
 from sklearn.base import clone
 from sklearn.metrics import accuracy_score, roc_auc_score as sklearn_roc_auc_score
 from sklearn.preprocessing import LabelEncoder
@@ -236,6 +236,16 @@ class JointUtility(Utility):
             ]
         )
         return np.sum(scores, axis=0)
+
+
+def _constant_prediction(y_test: NDArray, x: Any) -> NDArray:
+    """The prediction vector that assigns the class x to every test example."""
+    dtype = y_test.dtype
+    if np.any(np.asarray(x).astype(dtype) != x):
+        # The class does not survive a cast to the dtype of the test labels (a longer string, an integer that
+        # wraps around, a fractional value), so we move to a dtype that can hold both.
+        dtype = np.result_type(dtype, np.asarray(x).dtype)
+    return np.full_like(y_test, x, dtype=dtype)
 
 
 class SklearnModelUtilityResult(UtilityResult):
@@ -643,7 +653,7 @@ class SklearnModelUtility(Utility):
             y_test = y_test.to_numpy()
         classes = np.unique(y_train)
         for x in classes:
-            y_spoof = np.full_like(y_test, x, dtype=y_test.dtype)
+            y_spoof = _constant_prediction(y_test, x)
             scores.append(
                 self._metric_score(
                     self.metric,
@@ -725,7 +735,7 @@ class SklearnModelAccuracy(SklearnModelUtility):
             y_test = y_test.to_numpy()
         result = np.zeros_like(y_test)
         for x in np.unique(y_train):
-            y_spoof = np.full_like(y_test, x, dtype=y_test.dtype)
+            y_spoof = _constant_prediction(y_test, x)
             elementwise_sore = np.array(y_test == y_spoof, dtype=float)
             score = np.mean(elementwise_sore)
             if min_score > score:
